@@ -12,8 +12,8 @@ RULE = ("every batch-free program (leaves: child task | ConstFuture; a body = 0.
         "nested / one-element structures, empty list / tuple / dict, `yield None`, raise at any statement gap, try/except "
         "around any statement range with an empty handler or a handler that yields another child task, and a plain "
         "synchronous call of an @asynq() function at any gap), each under 4 call styles (plain function, bound method, "
-        "@async_proxy returning fn.asynq(), mixed by task id; constants through an @async_proxy returning ConstFuture in the "
-        "proxy styles) x 3 asyncio_fn modes (none / tasks with even id / tasks with odd id are declared with an explicit "
+        "@async_proxy returning fn.asynq(), mixed by task id mod 4 over function / method / proxy / asynq.async_call; constants "
+        "through an @async_proxy returning ConstFuture in the proxy styles) x 3 asyncio_fn modes (none / tasks with even id / tasks with odd id are declared with an explicit "
         "hand-written async def), both builds. Each (program, configuration) is executed twice: fn(code) on the asynq "
         "scheduler and `await fn.asyncio(code)` from a driver coroutine on one long-lived event loop stepped one iteration "
         "at a time. evals = executions (both engines); states = (program, configuration) pairs judged; transitions = body "
@@ -294,6 +294,34 @@ class Ref(object):
             self.r1a, self.exp_a = r1, exp
         self.ych = A.yields_children(prog)
         self.nontrivial = prog.ntasks >= 2 or "raise" in prog.features or self.has_sync
+        self.sync_callees = _sync_callees(prog.root.stmts, []) if self.has_sync else []
+
+
+def _sync_callees(stmts, acc):
+    """tids of the tasks called synchronously anywhere in the program"""
+    for st in stmts:
+        op = st[0]
+        if op == "sync":
+            acc.append(st[2].tid)
+            _sync_callees(st[2].stmts, acc)
+        elif op == "try":
+            _sync_callees(st[2], acc)
+            _sync_callees(st[3], acc)
+        elif op == "y":
+            _sync_callees_struct(st[2], acc)
+    return acc
+
+
+def _sync_callees_struct(s, acc):
+    op = s[0]
+    if op == "L" or op == "T":
+        for x in s[1]:
+            _sync_callees_struct(x, acc)
+    elif op == "D":
+        for k, x in s[1]:
+            _sync_callees_struct(x, acc)
+    elif op == "c":
+        _sync_callees(s[2].stmts, acc)
 
 
 def _cmp_outcome(A, out, exp):
@@ -359,11 +387,25 @@ def judge(ref, style, aio, out):
     out["transitions"] += sum(1 for ev in rs.log if ev[0] in "srx") + sum(1 for ev in ra.log if ev[0] in "srx")
     cnt = out["counters"]
     cnt["loop_iterations"] = cnt.get("loop_iterations", 0) + ra.iters
+    refused_ok = True  # premise of the asyncio-side reference R1A: every plain synchronous call raised RuntimeError
+    # ---- plain synchronous calls
+    for ev in ra.log:
+        if ev[0] == "q":
+            cnt["sync_calls_under_asyncio"] = cnt.get("sync_calls_under_asyncio", 0) + 1
+            if ev[4] and ev[3] != ("exc", "RuntimeError"):
+                if ev[3] == "ok":
+                    found.append(("sync-call-not-refused", "plain synchronous call of an @asynq() function in asyncio mode returned "
+                                  "normally instead of raising RuntimeError"))
+                else:
+                    found.append(("sync-call-wrong-exception", "plain synchronous call of an @asynq() function in asyncio mode raised %r "
+                                  "instead of RuntimeError" % (ev[3],)))
+                refused_ok = False
+                break
     # ---- outcomes vs the sequential reference
     d = _cmp_outcome(A, outs, ref.exp_s)
     if d is not None:
         found.append(("sync-outcome", "fn(code) on the asynq scheduler %s" % d))
-    d = _cmp_outcome(A, outa, ref.exp_a)
+    d = _cmp_outcome(A, outa, ref.exp_a) if refused_ok else None
     if d is not None:
         found.append(("asyncio-outcome", "await fn.asyncio(code) %s" % d))
     # ---- the two engines against each other
@@ -389,7 +431,7 @@ def judge(ref, style, aio, out):
     st_a = set(ev[1] for ev in ra.log if ev[0] == "s")
     if st_s != ref.r1.started:
         found.append(("started-set", "scheduler: bodies of tasks %s ran, reference runs %s" % (sorted(st_s), sorted(ref.r1.started))))
-    if st_a != ref.r1a.started:
+    if st_a != ref.r1a.started and refused_ok:
         found.append(("started-set", "asyncio: bodies of tasks %s ran, reference runs %s" % (sorted(st_a), sorted(ref.r1a.started))))
     _order_check(rs.log, ref.ych, found, "scheduler")
     _order_check(ra.log, ref.ych, found, "asyncio")
@@ -423,14 +465,6 @@ def judge(ref, style, aio, out):
             found.append(("mode-flag-off-inside", "is_asyncio_mode() is False inside the body of task %d run via .asyncio() (%r)"
                           % (tid, ev[:-1])))
             break
-    # ---- plain synchronous calls
-    for ev in ra.log:
-        if ev[0] == "q":
-            cnt["sync_calls_under_asyncio"] = cnt.get("sync_calls_under_asyncio", 0) + 1
-            if ev[4] and ev[3] != ("exc", "RuntimeError"):
-                found.append(("sync-call-not-refused", "plain synchronous call of an @asynq() function in asyncio mode gave %r "
-                              "instead of RuntimeError" % (ev[3],)))
-                break
     if any(ev[0] == "c" for ev in ra.log):
         cnt["executions_with_caught_failure"] = cnt.get("executions_with_caught_failure", 0) + 1
     if nat:
@@ -440,6 +474,11 @@ def judge(ref, style, aio, out):
     if found:
         feats = sorted(prog.features) + ["style:" + STYLE_NAMES[style], "aiofn:%d" % aio,
                                          "outcome:" + ("raise" if failed else "return")]
+        if style == 3:
+            if any(tid % 4 == 3 for tid in st_s | st_a):
+                feats.append("route:async_call")
+            if any(tid % 4 == 3 for tid in ref.sync_callees):
+                feats.append("route:async_call-sync-call")
         seen = set()
         for sig, msg in found:
             if sig in seen:
